@@ -629,6 +629,55 @@ def check_remove_pbc_atoms(bi, depth, bonded, sel, seed):
     return None
 
 
+def check_repeat_box(bi, amount, depth):
+    """repeat_box_coord / repeat_box: the copies are the input shifted by lattice vectors, every combination of
+    -amount..amount box vectors exactly once, the first block is the input, the indices point at the source atoms"""
+    import numpy as np
+    import biotite.structure as struc
+    box = np.array(BOXES[bi], dtype=np.float64)
+    n = 3
+    base = np.array([[0.5, 0.25, 1.0], [1.5, 2.0, 0.75], [3.0, 0.5, 2.5]])
+    X = base if depth == 0 else np.array([base + 0.37 * k for k in range(depth)])
+    B = box if depth == 0 else np.array([box * (1 + 0.5 * k) for k in range(depth)])
+    rep, idx = struc.repeat_box_coord(X.astype(np.float32), B.astype(np.float32), amount)
+    nb = (1 + 2 * amount) ** 3
+    rep = np.asarray(rep, dtype=float)
+    if rep.shape != X.shape[:-2] + (nb * n, 3) or np.asarray(idx).tolist() != list(range(n)) * nb:
+        return f"shape {rep.shape}, indices {np.asarray(idx).tolist()[:8]}... for amount {amount}"
+    for k in range(max(depth, 1)):
+        Rm = rep[k] if depth else rep
+        Xm = X[k] if depth else X
+        Bm = B[k] if depth else B
+        if not np.allclose(Rm[:n], Xm, atol=1e-5):
+            return "the first block is not the input"
+        seen = set()
+        for blk in range(nb):
+            shift = Rm[blk * n: (blk + 1) * n] - Xm
+            if np.abs(shift - shift[0]).max() > 1e-4:
+                return f"block {blk}: atoms of one copy are shifted differently"
+            fr = np.linalg.solve(Bm.T, shift[0])
+            if np.abs(fr - np.round(fr)).max() > 1e-3:
+                return f"block {blk}: shifted by {shift[0].tolist()}, not a lattice vector of box {Bm.tolist()}"
+            seen.add(tuple(int(v) for v in np.round(fr)))
+        want = {(i, j, l) for i in range(-amount, amount + 1) for j in range(-amount, amount + 1) for l in range(-amount, amount + 1)}
+        if seen != want:
+            return f"model {k}: copies cover {len(seen)} of the {len(want)} neighbouring cells (box {BOXES[bi]}, amount {amount})"
+    # the structure-level variant with its default amount
+    arr = struc.AtomArray(n)
+    arr.coord = base.astype(np.float32)
+    arr.box = box.astype(np.float32)
+    arr.set_annotation("tag", np.arange(n))
+    obj = arr if depth == 0 else struc.stack([arr] * depth)
+    rep_atoms, idx2 = struc.repeat_box(obj)
+    if rep_atoms.array_length() != 27 * n or rep_atoms.tag.tolist() != list(range(n)) * 27 or np.asarray(idx2).tolist() != list(range(n)) * 27:
+        return "repeat_box: atoms / indices"
+    rc = np.asarray(rep_atoms.coord, dtype=float).reshape(-1, 27 * n, 3)[0]
+    want_c, _ = struc.repeat_box_coord(base.astype(np.float32), box.astype(np.float32))
+    if not np.allclose(rc, np.asarray(want_c, dtype=float), atol=1e-4):
+        return "repeat_box and repeat_box_coord disagree"
+    return None
+
+
 def ob_geometry_concrete(tier):
     cases = []
     v = z3.Ints("i0 i1 i2 i3 ax an sh")
@@ -659,6 +708,10 @@ def ob_geometry_concrete(tier):
     cases.append(Case("remove_pbc_from_coord on wrapped chains", [b >= 0, b < len(BOXES), d >= 0, d <= 3],
                       lambda: check_remove_pbc_concrete(cur().choose(b, range(len(BOXES))), cur().choose(d, range(4))) is None,
                       dict(bi=b, depth=d), rep(check_remove_pbc_concrete, ["bi", "depth"])))
+    am = z3.Int("am")
+    cases.append(Case("repeat_box_coord / repeat_box", [b >= 0, b < len(BOXES), d >= 0, d <= 2, am >= 1, am <= 2],
+                      lambda: check_repeat_box(cur().choose(b, range(len(BOXES))), cur().choose(am, range(1, 3)), cur().choose(d, range(3))) is None,
+                      dict(bi=b, amount=am, depth=d), rep(check_repeat_box, ["bi", "amount", "depth"])))
     bd, sl, sd = z3.Ints("bd sl sd")
     cases.append(Case("remove_pbc on structures with molecules", [b >= 0, b < len(BOXES), d >= 0, d <= 2, bd >= 0, bd <= 1, sl >= 0, sl <= 2, sd >= 0, sd <= 2],
                       lambda: check_remove_pbc_atoms(cur().choose(b, range(len(BOXES))), cur().choose(d, range(3)), cur().choose(bd, range(2)),
